@@ -147,6 +147,14 @@ Definition dag_okb (P : wprog) (D : graph) : bool :=
   forallb (fun x => existsb (N.eqb x) (layout P D)) (atoms_of D) &&
   forallb (inD D) (layout P D).
 
+(* source side, full version: facts and members pairwise distinct, extra identifiers distinct and
+   different from every fact / member, every atom of the cyclic program is a fact or a member *)
+Record wf_src (P : wprog) : Prop := {
+  wf_ids : NoDup (flat_map fst (blocks P));
+  wf_extras : NoDup (map snd (wp_groups P));
+  wf_fresh : forall g, In g (wp_groups P) -> ~ In (snd g) (flat_map fst (blocks P));
+  wf_atoms : forall id, In id (atoms_of (wp_graph P)) -> In id (flat_map fst (blocks P)) }.
+
 (* source side: the extra identifiers are not atoms of the cyclic program *)
 Definition extras_fresh (P : wprog) : Prop :=
   forall b, In b (wp_groups P) -> ~ In (snd b) (atoms_of (wp_graph P)).
